@@ -4,7 +4,7 @@ Relation explorer: each state is a base cell plus a relation; execute() performs
  S1 NC with the Z decoupled (MZ=inf exactly, MZ=1e20 approximately) == EM (parity-violating kinds exactly 0)
  S2 positron with polarisation P == electron with polarisation -P
  S3 CC: O_antinu[pid] = s * O_nu[-pid], O_e+[pid] = s * O_e-[-pid], s=-1 for parity-violating kinds (xF3), gluon row included; arbitrary CKM
- S4 ZM-VFNS NC/EM: rows of active quarks with identical electroweak charges are identical (d,s,b / u,c,t)
+ S4 ZM-VFNS NC/EM (and CC with a CKM matrix of equal rows and columns): rows of active quarks with identical electroweak charges are identical (d,s,b / u,c,t)
 """
 import itertools
 import math
@@ -103,6 +103,11 @@ def states(tier, seed):
         if pto == 3 and (q2 not in (10.0, 1e5) or k in ("g1",)):
             continue
         out.append({"rel": "S4", "kind": k, "heavyness": h, "scheme": "ZM-VFNS", "pto": pto, "Q2": q2, "process": proc, "pol": pol})
+    # S4 for charged currents: with a CKM matrix whose rows (and columns) are equal, active quarks of the same type are interchangeable in massless schemes
+    for k, h, pto, q2, pr in itertools.product(["F2", "FL", "F3"], ["light", "total"], [0, 1, 2], [2.0, 10.0, 30.0, 1e5], ["neutrino", "antineutrino", "electron", "positron"]):
+        if pr in ("electron", "positron") and (pto == 2 or q2 in (2.0, 30.0)):
+            continue
+        out.append({"rel": "S4", "kind": k, "heavyness": h, "scheme": "ZM-VFNS", "pto": pto, "Q2": q2, "process": "CC", "pol": 0.0, "projectile": pr, "ckm": "0.5 0.5 0.5 0.5 0.5 0.5 0.5 0.5 0.5"})
     if quick:
         for k, q2, proc in itertools.product(["F2", "FL", "F3"], [10.0, 1e5], ["EM", "NC"]):
             if proc == "EM" and k == "F3":
@@ -250,7 +255,12 @@ def _s3(st):
 
 
 def _s4(st):
-    (o, s0), name = _run({"process": st["process"], "obscard": {"PolarizationDIS": st["pol"]}}, st)
+    cell = {"process": st["process"], "obscard": {"PolarizationDIS": st["pol"]}}
+    if "projectile" in st:
+        cell["projectile"] = st["projectile"]
+    if "ckm" in st:
+        cell["theory"] = {"CKM": st["ckm"]}
+    (o, s0), name = _run(cell, st)
     if s0 != "ok":
         return _triv(s0, 1)
     q2 = st["Q2"]
